@@ -220,16 +220,84 @@ class StmtMixin:
             self.path.append((test, True, fr.func))
         return ta and tb
 
+    def s_Match(self, st, fr):
+        """`match subject: case ...` as an if / elif chain: class patterns are isinstance tests, literal patterns
+        equality tests, `_` / a bare capture always matches; other patterns are opaque tests."""
+        subj = self.eval(st.subject, fr)
+
+        def test_of(pat):
+            if isinstance(pat, ast.MatchClass) and not pat.patterns and not pat.kwd_patterns:
+                return mk("call", mk("ext", "builtins.isinstance"), (subj, self.eval(pat.cls, fr)), ())
+            if isinstance(pat, ast.MatchValue):
+                return self.mk_cmp("==", subj, self.eval(pat.value, fr), fr)
+            if isinstance(pat, ast.MatchSingleton):
+                return self.mk_cmp("is", subj, const(pat.value), fr)
+            if isinstance(pat, ast.MatchAs) and pat.pattern is None:
+                if pat.name is not None:
+                    fr.scope.vars[pat.name] = subj
+                return tm.TRUE
+            if isinstance(pat, ast.MatchOr):
+                ts = [test_of(p) for p in pat.patterns]
+                return mk("bool", "or", tuple(ts))
+            return self.opaque("match pattern " + type(pat).__name__, pat, fr)
+
+        def run(cases):
+            if not cases:
+                return False
+            c = cases[0]
+            test = test_of(c.pattern)
+            if c.guard is not None:
+                test = mk("bool", "and", (test, self.eval(c.guard, fr)))
+            self.record("py_branch", test, "if", None, fr, c.pattern)
+            if test is tm.TRUE:
+                return self.exec_block(c.body, fr)
+            before = dict(fr.scope.vars)
+            base = len(self.path)
+            self.path.append((test, True, fr.func))
+            ta = self.exec_block(c.body, fr)
+            del self.path[base:]
+            a = None if ta else fr.scope.vars
+            fr.scope.vars = dict(before)
+            self.path.append((test, False, fr.func))
+            tb = run(cases[1:])
+            del self.path[base:]
+            b = None if tb else fr.scope.vars
+            self._merge(fr, test, before, a, b)
+            if ta and not tb:
+                self.path.append((test, False, fr.func))
+            elif tb and not ta:
+                self.path.append((test, True, fr.func))
+            return ta and tb
+
+        return run(list(st.cases))
+
     def s_For(self, st, fr):
         it = self.eval(st.iter, fr)
         items = self.static_items(it)
         if items is not None and len(items) <= MAX_UNROLL:
-            for x in items:
-                self.assign(st.target, x, fr)
-                if self.exec_block(st.body, fr):
-                    return True
-            if st.orelse:
-                return self.exec_block(st.orelse, fr)
+            ctx = {"breaks": [], "continues": []}
+            fr.loops.append(ctx)
+            base = len(self.path)
+            alive = True      # normal control flow reaches the next iteration / the else clause
+            try:
+                for x in items:
+                    self.assign(st.target, x, fr)
+                    ctx["continues"] = []
+                    ended = self.exec_block(st.body, fr)
+                    states = ([fr.scope.vars] if not ended else []) + ctx["continues"]
+                    if not states:
+                        alive = False
+                        break
+                    fr.scope.vars = self._join_states(states)
+            finally:
+                fr.loops.pop()
+            ended_else = (not alive) or (self.exec_block(st.orelse, fr) if st.orelse else False)
+            exits = ([fr.scope.vars] if not ended_else else []) + ctx["breaks"]
+            if ctx["breaks"]:
+                del self.path[base:]     # exits under different conditions are joined
+            if not exits:
+                return True
+            fr.scope.vars = self._join_states(exits)
             return False
         # one symbolic pass
         names = [n for n in assigned_names(st.body)]
@@ -242,7 +310,15 @@ class StmtMixin:
                 fr.scope.vars[n] = self.map_struct(lambda x: self._wrap1("loopin", x, uid), v)
         self.assign(st.target, self.wrap("elem", it), fr)
         base = len(self.path)
-        self.exec_block(st.body, fr)
+        ctx = {"breaks": [], "continues": []}
+        fr.loops.append(ctx)
+        try:
+            ended = self.exec_block(st.body, fr)
+        finally:
+            fr.loops.pop()
+        states = ([fr.scope.vars] if not ended else []) + ctx["continues"] + ctx["breaks"]
+        if states:
+            fr.scope.vars = self._join_states(states)
         del self.path[base:]
         for n in names:
             v = fr.scope.lookup(n)
@@ -266,7 +342,15 @@ class StmtMixin:
         test = self.eval(st.test, fr)
         self.record("py_branch", test, "while", None, fr, st)
         base = len(self.path)
-        self.exec_block(st.body, fr)
+        ctx = {"breaks": [], "continues": []}
+        fr.loops.append(ctx)
+        try:
+            ended = self.exec_block(st.body, fr)
+        finally:
+            fr.loops.pop()
+        states = ([fr.scope.vars] if not ended else []) + ctx["continues"] + ctx["breaks"]
+        if states:
+            fr.scope.vars = self._join_states(states)
         del self.path[base:]
         for n in names:
             v = fr.scope.lookup(n)
@@ -292,7 +376,29 @@ class StmtMixin:
         return t
 
     def s_Break(self, st, fr):
+        if fr.loops:
+            fr.loops[-1]["breaks"].append(dict(fr.scope.vars))
+            return True
         return False
 
     def s_Continue(self, st, fr):
+        if fr.loops:
+            fr.loops[-1]["continues"].append(dict(fr.scope.vars))
+            return True
         return False
+
+    def _join_states(self, states):
+        """Join of variable maps reaching one program point along different paths."""
+        out = dict(states[0])
+        for b in states[1:]:
+            nxt = {}
+            for k in list(out.keys()) + [k for k in b.keys() if k not in out]:
+                va, vb = out.get(k), b.get(k)
+                if va is None or vb is None:
+                    nxt[k] = va if va is not None else vb
+                elif va is vb:
+                    nxt[k] = va
+                else:
+                    nxt[k] = self.zip_struct(lambda x, y: x if x is y else self.mk_phi([x, y]), va, vb)
+            out = nxt
+        return out
